@@ -22,19 +22,19 @@ CHECKS = {
     "C04": ("model_checking", "E1", "explicit-state BFS over 2-node event histories with a reference model in lock-step",
             "Tree equals the reference model's after every step of every history up to the completed depth; callback count/fields/view exact; raising callback changes nothing else.",
             "reference model R-MODEL (appendix A); bounded depth, 2 nodes, 2 children"),
-    "C05": ("model_checking", "E1", "explicit-state BFS, reply projection compared with the reference model; every emitted line re-validated independently",
+    "C05": ("model_checking", "E1", "explicit-state BFS (single lines, pairs of lines queued before the poll thread runs, controller calls), reply projection compared with the reference model; every emitted line re-validated independently",
             "Per-step emission list equals the prescribed replies for all histories up to the completed depth; every emitted line canonical, valid for the version, correctly addressed.",
-            "R-MODEL reply rules; virtual clock with non-zero UTC offset; ack flag of replies not prescribed"),
+            "R-MODEL reply rules; virtual clock with non-zero UTC offset; ack flag prescribed (0) for internal commands only"),
     "C06": ("model_checking", "E1+E2+E4", "explicit-state BFS over id requests / presentations / (failing) ticks / stop-restart on real persistence files with the history variable 'ids handed out'; preemption-bounded schedules of stop() against an id request (serial, MQTT); asyncio restarts with every executor completion order on the virtual loop",
             "No id response outside 1..254, for a known node, or repeating an earlier id, in any history up to the completed depth incl. restarts, both formats.",
             "real files in a scratch directory, fake Timer fired by TICK events"),
-    "C07": ("model_checking", "E1", "explicit-state BFS over 2-node histories; invariant on the destination of every emitted line relative to its cause",
+    "C07": ("model_checking", "E1", "explicit-state BFS over 2-node histories (with periodic saves and stop/restart on real persistence files in two configurations); invariant on the destination of every emitted line relative to its cause",
             "No line leaves the gateway for a sleeping node unless caused by that node's wake-up (stream excepted), and replies for awake nodes are emitted in their own step, in all histories up to the completed depth (versions 2.0-2.2).",
             "cause = event whose processing returned or enqueued the line (jobs tagged at add_job); node 255 never sleeps"),
-    "C08": ("model_checking", "E1", "explicit-state BFS over smart-sleep histories with node-version skew, reference hold-queue and desired-map in lock-step",
+    "C08": ("model_checking", "E1+E2", "explicit-state BFS over smart-sleep histories with node-version skew (and periodic saves with persistence on), reference hold-queue and desired-map in lock-step; preemption-bounded schedules of the controller's thread withholding traffic while the poll thread flushes the queue",
             "Wake-up bursts equal the reference hold queue (ordered) plus one set per pending desired value; refusal at call time instead of failure at wake-up; all histories up to the completed depth.",
             "R-MODEL queue rules; refusal for children presented after the last wake-up is UNSPEC"),
-    "C09": ("exploration", "E5+E1", "bounded-exhaustive enumeration of image lengths/contents/request orders against independent CRC, HEX writer and reassembly; BFS over request orders for a small image",
+    "C09": ("exploration", "E5+E1+E2", "bounded-exhaustive enumeration of image lengths/contents/request orders against independent CRC, HEX writer and reassembly; BFS over request orders for a small image (always-on and smart-sleep node); preemption-bounded schedules of an update call against the poll thread answering requests",
             "Config response and blocks reassemble to image + <=128 bytes of 0xFF, CRC-16/MODBUS matches, echo fields correct, HEX loads exactly, for every enumerated length/content/order.",
             "independent CRC and Intel-HEX writer in mc/ref_codec.py; content families + affinity argument for the CRC"),
     "C10": ("model_checking", "E1(+TLC)", "explicit-state BFS over OTA session histories against a reference session automaton; TLA+ model whose every TLC edge is replayed on the code (thorough)",
@@ -49,13 +49,13 @@ CHECKS = {
     "C13": ("fault_enumeration", "E3", "every truncation offset and zero-fill of main x backup variants, both formats",
             "start_persistence never raises and yields main's state, else backup's, else empty, for every enumerated damage pattern.",
             "damage model: truncation and zero-fill only"),
-    "C14": ("model_checking", "E1+E4", "explicit-state BFS with (failing) ticks at every position; stop()+fresh start evaluated in every distinct state, threaded gateway and asyncio gateway on the virtual loop",
+    "C14": ("model_checking", "E1+E4", "explicit-state BFS with (failing) ticks at every position (and start_persistence() deferred behind traffic in two configurations); stop()+fresh start evaluated in every distinct state, threaded gateway and asyncio gateway on the virtual loop",
             "Projection before stop() equals projection after restart in every state up to the completed depth, 5 versions x 2 formats.",
             "real files, fake Timer"),
-    "C15": ("fault_enumeration", "E3+E2+E4", "fault at every operation of every save in a tick sequence (sync and asyncio); every preemption point of a save against a concurrent message",
+    "C15": ("fault_enumeration", "E3+E2+E4", "fault at every operation of every save in a tick sequence, and pairs of faults in two consecutive saves (sync and asyncio); every schedule up to the preemption bound of a save against one or two concurrent messages",
             "After every enumerated failing save: previous file loadable, state still dirty, schedule alive, next save persists the current state.",
             "fake Timer / virtual loop; fault = OSError at one file operation"),
-    "C16": ("model_checking", "E2", "stateless exploration of thread interleavings at source-line granularity with preemption bounding (CHESS-style) on the real SyncTransport/SyncTasks/TCPTransport code, eight harnesses",
+    "C16": ("model_checking", "E2", "stateless exploration of thread interleavings at source-line granularity with preemption bounding (CHESS-style) on the real SyncTransport/SyncTasks/TCPTransport code, ten harnesses",
             "No schedule up to the preemption bound makes send raise, write twice, or write to a closed connection; queued commands sent exactly once in order.",
             "baton scheduler over sys.settrace line events; fake connection objects; bound reported in evidence"),
     "C17": ("model_checking", "E5+E1", "bounded-exhaustive prefix x message x qos round trips and topic acceptance against an independent topic codec; BFS over subscription histories",
@@ -107,14 +107,14 @@ def main():
         },
         "engines": [
             {"name": "E1", "path": "mc/explore.py", "serves_properties": ["C01", "C04", "C05", "C06", "C07", "C08", "C10", "C11", "C14", "C17", "C19"], "kind_free_text": "explicit-state BFS over event histories replayed on real gateways, canonical state matching"},
-            {"name": "E2", "path": "mc/sched.py", "serves_properties": ["C01", "C06", "C15", "C16", "C20"], "kind_free_text": "controlled thread scheduler, preemption-bounded stateless exploration"},
+            {"name": "E2", "path": "mc/sched.py", "serves_properties": ["C01", "C06", "C08", "C09", "C15", "C16", "C20"], "kind_free_text": "controlled thread scheduler, preemption-bounded stateless exploration"},
             {"name": "E3", "path": "mc/fsfault.py", "serves_properties": ["C12", "C13", "C15"], "kind_free_text": "file-operation crash/fault enumerator over a real scratch directory"},
             {"name": "E4", "path": "mc/vloop.py", "serves_properties": ["C06", "C10", "C14", "C15", "C20"], "kind_free_text": "virtual asyncio loop, environment events chosen by the explorer"},
             {"name": "E5", "path": "mc/checks", "serves_properties": ["C02", "C03", "C09", "C17", "C18"], "kind_free_text": "bounded-exhaustive input enumeration against independent references"},
         ],
         "checks": checks,
         "not_applicable": na,
-        "notes": "All checks run /repo's working tree via ./check (fresh interpreter, PYTHONHASHSEED=0). Known findings: /verif/known_findings.json (one known finding: C19 threaded emission order; 21 fixed entries over 17 fix: commits). Seeded changes and which check catches which: /verif/seeded and DESIGN.md section 12. VERIF_REPO / VERIF_EVIDENCE_DIR are used only by tools/try_seed.py to point a check at a scratch worktree.",
+        "notes": "All checks run /repo's working tree via ./check (fresh interpreter, PYTHONHASHSEED=0). Known findings: /verif/known_findings.json (one known finding: C19 threaded emission order; 25 fixed entries over 18 fix: commits). Seeded changes and which check catches which: /verif/seeded and DESIGN.md section 12. VERIF_REPO / VERIF_EVIDENCE_DIR are used only by tools/try_seed.py to point a check at a scratch worktree.",
     }
     with open(os.path.join(ROOT, "MANIFEST.json"), "w", encoding="utf-8") as fh:
         json.dump(manifest, fh, indent=1)
